@@ -752,19 +752,13 @@ Section Accepted2.
     expression_block G (afix f) sp [SStatementExpression a sp1] ctx s = Ok ((r, ov), s') ->
     wf s' /\ ext s s' /\ exists ta v, oa = Some ta /\ ov = Some v /\ has_ty s' v ta.
   Proof.
-    intros Sa W HI H. unfold expression_block in H. cbn [foldM last_stmt] in H.
-    apply bind_inv in H as (r1 & s1 & H1 & H).
-    apply bind_inv in H1 as (b' & s2 & H1 & Hr). injection Hr as <- <-.
-    apply bind_inv in H1 as (sr & s3 & Hs & Hu).
-    destruct f as [|f]; [discriminate|]. cbn [Tc.afix astep r_stmt] in Hs. unfold stmt_body in Hs.
-    apply bind_inv in Hs as ([r0 v0] & s4 & He & Hs). injection Hs as <- <-.
-    destruct (Sa _ _ _ _ _ W HI He) as (W4 & E4 & _).
-    assert (s2 = s4) by (destruct r0; cbn in Hu; injection Hu as _ <-; reflexivity). subst s2.
+    intros Sa W HI H. unfold expression_block in H. cbn [block_split fst snd foldM] in H.
+    apply bind_inv in H as (r1 & s1 & H1 & H). injection H1 as <- <-.
     apply bind_inv in H as ([vret v] & s5 & He2 & H).
-    destruct (Sa _ _ _ _ _ W4 (env_ok2_ext _ _ _ W E4 HI) He2) as (W5 & E5 & (ta & -> & Hv)). cbn [snd] in Hv.
+    destruct (Sa _ _ _ _ _ W HI He2) as (W5 & E5 & (ta & -> & Hv)). cbn [snd] in Hv.
     apply bind_inv in H as (r' & s6 & H6 & H). injection H as _ <- <-.
-    assert (P6 : pres (unify_option G sp b' vret)) by prs. destruct (P6 _ _ _ W5 H6) as [W6 E6].
-    split; [assumption|]. split; [eapply ext_trans; [exact E4|]; eapply ext_trans; eassumption|].
+    assert (P6 : pres (unify_option G sp None vret)) by prs. destruct (P6 _ _ _ W5 H6) as [W6 E6].
+    split; [assumption|]. split; [eapply ext_trans; eassumption|].
     exists ta, v. repeat split. exact (has_ty_ext _ _ _ _ E6 Hv).
   Qed.
 
@@ -994,16 +988,13 @@ Section Main2.
   Lemma accepted_stmts2 sp f ctx : forall ss E e acc s r s',
     frag2 (shapes E) ss e = true -> wf s -> env_ok2 E s ->
     foldM (fun (acc : option tyid) (st : stmt) => sr <- r_stmt (afix f) st ctx ;; unify_option G sp acc sr)
-          (to_block2 sp ss e) acc s = Ok (r, s') ->
+          (map (to_stmt2 sp) ss) acc s = Ok (r, s') ->
     wf s' /\ ext s s' /\ exists E' sh, ty_stmts2 E ss = Some E' /\ env_ok2 E' s' /\ shp (shapes E') e = Some sh.
   Proof.
-    induction ss as [|st ss IH]; intros E e acc s r s' Hf W HI H; unfold to_block2 in H; cbn [map app foldM frag2] in *.
-    - apply bind_inv in H as (acc1 & s1 & H1 & H). injection H as <- <-.
-      assert (P : pres (sr <- r_stmt (afix f) (SStatementExpression (to_expr2 sp e) sp) ctx ;; unify_option G sp acc sr))
-        by (pose proof PG; pose proof (PA f); prs).
-      destruct (P _ _ _ W H1) as [W1 E1]. split; [assumption|]. split; [assumption|].
+    induction ss as [|st ss IH]; intros E e acc s r s' Hf W HI H; cbn [map foldM frag2] in *.
+    - injection H as <- <-. split; [assumption|]. split; [apply ext_refl|].
       destruct (shp (shapes E) e) as [sh|] eqn:Hs; [|discriminate].
-      exists E, sh. split; [reflexivity|]. split; [exact (env_ok2_ext _ _ _ W E1 HI)|exact Hs].
+      exists E, sh. split; [reflexivity|]. split; [exact HI|exact Hs].
     - destruct (shp_stmt (shapes E) st) as [S'|] eqn:Hst; [|discriminate].
       apply bind_inv in H as (acc1 & s1 & H1 & H).
       apply bind_inv in H1 as (sr & s2 & Hs & Hu).
@@ -1020,11 +1011,10 @@ Section Main2.
     expression_block G (afix f) sp (to_block2 sp ss e) ctx s = Ok ((r, ov), s') ->
     exists t v, ty_block2 [] ss e = Some t /\ ov = Some v /\ has_ty s' v t.
   Proof.
-    intros Hf W H. unfold expression_block in H.
+    intros Hf W H. unfold expression_block, to_block2 in H. rewrite block_split_snoc in H. cbn [fst snd] in H.
     apply bind_inv in H as (r1 & s1 & H1 & H).
     assert (EO : env_ok2 [] s) by (intros x t L; discriminate).
     destruct (accepted_stmts2 sp f ctx ss [] e None s r1 s1 Hf W EO H1) as (W1 & E1 & (E' & sh & Tys & EO' & Hfe)).
-    unfold to_block2 in H. rewrite last_stmt_snoc in H.
     apply bind_inv in H as ([vret v] & s2 & He & H).
     destruct (accepted_typed2 E' sp e sh Hfe _ _ _ _ _ W1 EO' He) as (W2 & E2 & (t & Ety & Hv)). cbn [snd] in Hv.
     apply bind_inv in H as (r' & s3 & Hu & H). injection H as <- <- <-.
